@@ -67,6 +67,34 @@ def visitor_rules(ctx: Ctx, pm: ParserModel, vm: VisitorModel, P: str, only: Opt
                             used.add(id(body[0]))
                         else:
                             why = "the `is False` branch is not exactly `self.visitor = null_visitor`"
+                elif isinstance(parent, ast.Assign) and parent.value is call and len(parent.targets) == 1 and isinstance(parent.targets[0], ast.Name):
+                    # `x = cb(state)` ... `if x is False: self.visitor = null_visitor`: every read of x is that test
+                    x_ = parent.targets[0].id
+                    loads = [y for y in walk_local(pm.fn(fname)) if isinstance(y, ast.Name) and y.id == x_ and isinstance(y.ctx, ast.Load)]
+                    good = bool(loads)
+                    for y in loads:
+                        cmp_ = mod.parent.get(y)
+                        iff = mod.parent.get(cmp_) if cmp_ is not None else None
+                        if not (isinstance(cmp_, ast.Compare) and cmp_.left is y and len(cmp_.ops) == 1 and isinstance(cmp_.ops[0], ast.Is) and isinstance(cmp_.comparators[0], ast.Constant)
+                                and cmp_.comparators[0].value is False and isinstance(iff, ast.If) and iff.test is cmp_ and not iff.orelse):
+                            good = False
+                            why = f"the stored result `{x_}` is used other than in an `is False` test"
+                            break
+                        body = [s_ for s_ in iff.body if not isinstance(s_, (ast.Pass, ast.Return, ast.Continue, ast.Break))]
+                        if not (len(body) == 1 and any(body[0] is st for _, st in null_stores)):
+                            good = False
+                            why = "the `is False` branch is not exactly `self.visitor = null_visitor`"
+                            break
+                        used.add(id(body[0]))
+                    # the test must follow the call on every path (it post-dominates the definition): nothing else re-binds x in between
+                    if good:
+                        cfg_ = pm.cfg(fname)
+                        dn = node_containing(cfg_, call)
+                        tests = [n_ for n_ in cfg_.nodes if n_.kind == "test" and n_.cond is not None and any(l_ is n_.cond.left for l_ in loads if isinstance(n_.cond, ast.Compare))]
+                        if dn is None or not tests or cfg_.paths_avoiding(dn, cfg_.exit, lambda k_: k_ in tests):
+                            good = False
+                            why = "a path from the start callback to the end of the function does not pass the `is False` test"
+                    ok = good
                 elif isinstance(parent, (ast.Compare, ast.UnaryOp, ast.If, ast.BoolOp)):
                     why = "the result is tested for falsiness/equality rather than identity with False: returning None would prune as well"
                 ctx.ob(f"{P}.1", f"parser:CxxParser.{fname}|{cb} result", ok, msg=why, node=call, mod=mod)
